@@ -19,6 +19,9 @@ import traceback
 
 VERIF = os.path.dirname(os.path.dirname(os.path.abspath(__file__)))
 REPO = os.environ.get('VPX_REPO', '/repo')
+# evidence and replays normally go to /verif; sensitivity sweeps redirect them (VPX_OUT) so that they never clobber
+# the evidence of the unchanged tree
+OUTDIR = os.environ.get('VPX_OUT') or VERIF
 
 
 class HarnessError(Exception):
